@@ -85,7 +85,7 @@ PROPS["C05"] = {
 }
 PROPS["C06"] = {
     "level": "proof", "theorems": _GEN["C06"], "theorem_kinds": {},
-    "rule": "seeded 2..4 replica histories with out-of-order deliveries (stashes, gaps); every ordered pair (A,B) of final replica states (B re-created by replaying exactly what it applied) x {encode_diff, encode_state_as_update} x {v1,v2} x {B's own vector, a stale vector recorded earlier}: B dominates A afterwards (state vector, integrated ids, deleted ids), the state vector never decreases, re-applying changes nothing, a diff against the own vector changes nothing, exchanging until nothing changes makes both equal. Non-trivial = a pair where one side has a gap or a stash",
+    "rule": "seeded 2..4 replica histories (general / text only / map only / array only / editor sessions in which every replica keeps typing at its cursor) with out-of-order deliveries (stashes, gaps); every ordered pair (A,B) of final replica states (B re-created by replaying exactly what it applied) x {encode_diff, encode_state_as_update} x {v1,v2} x {B's own vector, a stale vector recorded earlier}: B dominates A afterwards (state vector, integrated ids, deleted ids), the state vector never decreases, re-applying changes nothing, a diff against the own vector changes nothing, exchanging until nothing changes makes both equal. Non-trivial = a pair where one side has a gap or a stash",
     "trusted_base": [_MODEL_NOTE, "diff / state-vector theorems are at operation-set level (coq/Crdt/SyncProofs.v); slice encoding of partially known blocks is covered by the correspondence only"],
     "modelled_not_verified": ["Store::write_blocks_from offsets / ItemSlice::encode", "v2 run-length state"], "assumptions": [],
 }
@@ -111,14 +111,14 @@ PROPS["C13"] = {
 _CODEC_NOTE = "modelled: the lib0 v1 layer (coq/Codec/*.v) function by function, with the error results of the repaired Rust code; NOT modelled: the v2 column codecs (UIntOptRle / IntDiffOptRle / Rle / String table) and the v2 framing - covered by the implementation-only round trips, v1<->v2 cross checks and the C10 worker runs; JSON text inside embeds / formats is opaque to the model; f64 <-> wire-form classification of numbers is not modelled"
 PROPS["C09"] = {
     "level": "proof", "theorems": _GEN["C09"], "theorem_kinds": {},
-    "rule": "per case: 18 varints (edge values, all widths), 4 nested Any values, an IdSet, StateVector, Snapshot, StickyIndex (binary v1/v2 + JSON), AwarenessUpdate, sync Message (every tag incl. custom 4..255) and every update of a seeded 2..3 replica history (transaction updates and full states, v1 and v2, gc and non-gc senders) plus 56 hand-made v1 updates with foreign content kinds x every origin / parent shape; 8 Yjs-generated fixtures copied from the repository's compatibility tests: decode(encode x) = x in v1 and v2, v1->v2->v1 gives the same blocks, same effect on a document, and the Coq model decodes the same v1 bytes to the same value, its own re-encoding decodes to the same blocks and has the same effect on a real document. A case is one generated bundle; all are non-trivial (distinct by index)",
-    "trusted_base": [_CODEC_NOTE], "modelled_not_verified": ["EncoderV2 / DecoderV2", "serde adaptors", "Any::Number classification"], "assumptions": [],
+    "rule": "per case: 18 varints (edge values, all widths), 4 nested Any values, an IdSet, StateVector, Snapshot, StickyIndex (binary v1/v2 + JSON), AwarenessUpdate, sync Message (every tag incl. custom 4..255) and every update of a seeded 2..3 replica history (transaction updates and full states, v1 and v2, gc and non-gc senders) plus 56 hand-made v1 updates with foreign content kinds x every origin / parent shape and 6 generated v1 updates with ids over the whole width of the wire types (53-bit clients, clocks and origin clocks around 2^30, 2^31, 3*10^9, u32::MAX: the v2 clock columns store differences); every v2 update (emitted, and the v2 re-encoding of every v1 update) is decoded by the Coq model of lib0 v2 to the same blocks as its v1 form, and the model's v2 encoding is byte-compared with the implementation's; 8 Yjs-generated fixtures copied from the repository's compatibility tests: decode(encode x) = x in v1 and v2, v1->v2->v1 gives the same blocks, same effect on a document, and the Coq model decodes the same v1 bytes to the same value, its own re-encoding decodes to the same blocks and has the same effect on a real document. A case is one generated bundle; all are non-trivial (distinct by index)",
+    "trusted_base": [_CODEC_NOTE], "modelled_not_verified": ["v2 forms of state vector / snapshot / id set / id map / sticky index (implementation round trips only)", "serde adaptors", "Any::Number classification"], "assumptions": [],
 }
 PROPS["C10"] = {
     "level": "proof", "theorems": _GEN["C10"], "theorem_kinds": {},
-    "rule": "22 public decoding entry points (update v1/v2, state vector, snapshot, delete set, id map, Any, sticky index, awareness update, sync message + MessageReader, merge / diff / state-vector-from-update on encoded updates) x inputs derived from valid payloads by byte flips, random bytes, truncations, extreme varints spliced over fields, duplicated chunks, deletions, plus deep-nesting / huge-count resource inputs; every decode runs in a worker subprocess (8 MiB stack, wall-clock limit) with a counting allocator: panic, abort, crash, timeout, a single allocation request above 64*len+64 KiB, or a decoded value that cannot be re-encoded is a violation; the outcome class (ok / err) is compared with the Coq decoders for the v1-modelled entry points. Non-trivial = a mutated input that the implementation rejects (distinct by entry point and bytes)",
+    "rule": "22 public decoding entry points (update v1/v2, state vector, snapshot, delete set, id map, Any, sticky index, awareness update, sync message + MessageReader, merge / diff / state-vector-from-update on encoded updates) x inputs derived from valid payloads by byte flips, random bytes, truncations, extreme varints spliced over fields, duplicated chunks, deletions, plus deep-nesting / huge-count resource inputs; every decode runs in a worker subprocess (8 MiB stack, wall-clock limit) with a counting allocator: panic, abort, crash, timeout, a single allocation request above 64*len+64 KiB, or a decoded value that cannot be re-encoded is a violation; the outcome class (ok / err) is compared with the Coq decoders for the v1-modelled entry points and for Update::decode_v2 (the model of lib0 v2 runs in its own process under a 3 s / 6 GB guard; an input on which it gives up is counted, not compared). A resource failure of a v2 update reader is filed under the known finding (run-length expansion) only when the model reading the same bytes also yields a huge update or gives up. Non-trivial = a mutated input that the implementation rejects (distinct by entry point and bytes)",
     "trusted_base": [_CODEC_NOTE, "real stack depth, allocator behaviour and wall-clock time are observed by the worker runs only; the theorems bound fuel (= input length + 1), nesting depth and exclude every modelled panic site"],
-    "modelled_not_verified": ["v2 decoders", "Update::merge_updates / encode_diff on decoded garbage"], "assumptions": [],
+    "modelled_not_verified": ["v2 decoders other than Update::decode_v2", "Update::merge_updates / encode_diff on decoded garbage"], "assumptions": [],
 }
 PROPS["C15"] = {
     "level": "proof", "theorems": _GEN["C15"], "theorem_kinds": {},
@@ -145,13 +145,13 @@ PROPS["C14"] = {
 }
 PROPS["C20"] = {
     "level": "proof", "theorems": _GEN["C20"], "theorem_kinds": {},
-    "rule": "the histories of C14 with quotations of random ranges (inclusive / exclusive / unbounded ends, single element, empty) of the root array or text stored in the root map; every replica that has the quotation dereferences it after every step (unquote / get_string) and the result is compared with the live units between the boundary units in that replica's hook dump; deleting the quotation must leave the source untouched; observer firings are counted (exploratory)",
+    "rule": "the histories of C14 with quotations of random ranges (inclusive / exclusive / unbounded ends, single element, empty) of the root array or text stored in the root map; every replica that has the quotation dereferences it after every step (unquote / get_string) and the result is compared with the live units between the boundary units in that replica's hook dump; deleting the quotation must leave the source untouched; an observer is registered on every quotation on every replica as soon as it exists there, and every step (local transaction or delivery) after which the quotation shows other ids than before must have called it",
     "trusted_base": [_MODEL_NOTE, "link bookkeeping (ITEM_FLAG_LINKED, linked_by, inheritance on split) is not modelled: the model dereferences by position"],
-    "modelled_not_verified": ["LinkSource::materialize / join_linked_range / unlink", "observer notification of quotations (counted by the harness only)"], "assumptions": [],
+    "modelled_not_verified": ["LinkSource::materialize / join_linked_range / unlink", "observer notification of quotations (decided on the implementation only)"], "assumptions": [],
 }
 PROPS["C18"] = {
     "level": "proof", "theorems": _GEN["C18"], "theorem_kinds": {},
-    "rule": "handshake: two real Awareness + DefaultProtocol peers with prior divergence (optionally a shared past); both send start(); the two FIFO channels are drained in a seeded random interleaving mixed with concurrent local edits forwarded as Update messages; at quiescence both documents are equal at item level; every message is round-tripped. awareness: 2..4 producing clients (set / re-set / clean / timeout by a third party); every permutation of <= 5 updates plus a duplicated delivery applied to an observer and to a peer with a live local state: same registers for every order, clocks monotone, local state never erased; the Coq model is compared after every apply. Non-trivial = a handshake with an edit while messages are in flight, or an awareness multiset",
+    "rule": "handshake: two real Awareness + DefaultProtocol peers with prior divergence (optionally a shared past; in a third of the cases an earlier full sync followed by offline transactions that mostly only delete, which leaves the state vectors where they were); both send start(); the two FIFO channels are drained in a seeded random interleaving mixed with concurrent local edits forwarded as Update messages; at quiescence both documents are equal at item level; every message is round-tripped. awareness: 2..4 producing clients (set / re-set / clean / timeout by a third party); every permutation of <= 5 updates plus a duplicated delivery applied to an observer and to a peer with a live local state: same registers for every order, clocks monotone, local state never erased; the Coq model is compared after every apply. Non-trivial = a handshake with an edit while messages are in flight, or an awareness multiset",
     "trusted_base": ["awareness is modelled entry by entry (coq/OpSet/Awareness.v); timestamps are excluded (injected clock)", _MODEL_NOTE],
     "modelled_not_verified": ["Protocol::handle dispatch (exercised, not modelled)", "observer events of Awareness"], "assumptions": ["each client writes only its own awareness entry (an entry for the local client id written by someone else with a higher clock is order-sensitive: model observation apply_not_commutative_local)"],
 }
